@@ -1,4 +1,6 @@
 ENGINES = [
+    {"name": "heap", "path": "coq/theories (Heap, Slice, HeapProofs, RunHeap) + harness/heap.go, slice.go", "serves_properties": ["C05", "C06", "C08", "C09", "C10", "C11"],
+     "kind_free_text": "Coq theorems over a reference-semantics heap model and a slice/backing-array model; correspondence: random programs, outcome + canonical heap hash after every step"},
     {"name": "pure", "path": "coq/theories (Value, Aggregates, Views, Sorting, Equality) + harness", "serves_properties": ["C07", "C14", "C17", "C18"],
      "kind_free_text": "Coq theorems over pure value trees; correspondence: model evaluated by vm_compute on harness cases"},
 ]
@@ -40,5 +42,26 @@ TEXT = {
                 "other first element panics; C17_unique_*: sorted permutations are unique, so any correct sort.* agrees with the model; C17_reverse: the "
                 "n/2-1..0 swap loop equals rev (position i -> n-1-i, involutive). In-place/identity clauses are checked on the implementation.",
         "note": "sort.* modelled by insertion sort (justified by the uniqueness theorems); list identity (same list returned, mutated in place) is a harness predicate here and a theorem of the heap model in C05; no axioms.",
+    },
+    "C05": {
+        "engine": "heap",
+        "design_ref": "DESIGN.md section 6, C05",
+        "technique": "Coq proof (ownership invariant + forward simulation from the slice/backing-array model to the sequence model, induction over programs, arbitrary growth policy) + differential correspondence check on random programs",
+        "text": "C05_program_refines: for every growth policy and every program of list operations over any number of lists, the transcription of the library's "
+                "append/copy/make usage produces the outcomes and visible contents of the plain sequence model, with ownership of backing arrays as invariant; "
+                "panic domains proved as iff-statements (C05_*_domain), operations characterised position by position (C05_*_spec), panicking single-index "
+                "operations proved to leave the heap unchanged (C05_panic_frame). Reference semantics is the heap model's construction (ids), exercised by programs with aliases.",
+        "note": "Go slices/append modelled by hand (Slice.v) and executed against the code under two growth policies; the heap model (Heap.v) is tied by programs "
+                "with a canonical hash of the reachable heap after every step; Sort restricted to C17's domain and Delete to distinct valid indices in generated programs, as the property states; no axioms.",
+    },
+    "C09": {
+        "engine": "heap",
+        "design_ref": "DESIGN.md section 6, C09",
+        "technique": "Coq proof (heap-prefix frame lemma for every deriving operation; ownership invariant of backing arrays under every program) + differential correspondence check with growth histories",
+        "text": "C09_no_write: every deriving/observing operation leaves the old heap as a prefix of the new one (no pre-existing cell is written); "
+                "C09_results_own_storage: with real slice semantics and any growth policy, results of SubList/Concat own their arrays and every later mutation "
+                "changes only its own list (simulation to the sequence model); C09_prefix_concat_refuted: the pre-fix Concat is expressible in the model and breaks both. "
+                "Programs 'grow -> derive -> mutate any participant' are run against the code on every check.",
+        "note": "holds after the repair of D5 (fix: commit 7931f9b); Filter*/Map*/Reduce*/typed slices are covered as pure functions in C14; no axioms.",
     },
 }
